@@ -85,6 +85,55 @@ proof fn lemma_fold_validate(codes: Seq<i32>)
         }
     }
 }
+
+// validate, one step of the fold over the rules files (C06): acc = exit code so far, st = code of this rules file
+// (0 = parsed and nothing failed, 5 = did not parse, 19 = some evaluation FAILed). From the statement: a rules file that
+// is fine never changes the verdict so far; one that is not makes the run non-zero; no code is invented.
+// (Which of 5 / 19 wins when both occur is left open by the property.)
+pub open spec fn validate_step_ok(acc: i32, st: i32, res: i32) -> bool {
+    &&& (st == SUCCESS_STATUS_CODE ==> res == acc)
+    &&& (st != SUCCESS_STATUS_CODE ==> res != SUCCESS_STATUS_CODE)
+    &&& (acc == SUCCESS_STATUS_CODE ==> res == st)
+    &&& (res == acc || res == st)
+}
+// folding ANY step function that obeys validate_step_ok over per-file codes in {0, 5, 19}, from 0: the run exits 0 iff
+// every code is 0; 19 if some code is 19 and none is 5; 5 if some code is 5 and none is 19
+pub open spec fn all_zero(codes: Seq<i32>) -> bool { forall|i: int| 0 <= i < codes.len() ==> codes[i] == 0 }
+pub proof fn lemma_step_fold(codes: Seq<i32>, accs: Seq<i32>)
+    requires
+        accs.len() == codes.len() + 1, accs[0] == SUCCESS_STATUS_CODE,
+        forall|i: int| 0 <= i < codes.len() ==> validate_step_ok(accs[i], codes[i], #[trigger] accs[i + 1]),
+        forall|i: int| 0 <= i < codes.len() ==> (codes[i] == 0 || codes[i] == 5 || codes[i] == 19),
+    ensures
+        accs.last() == 0 <==> all_zero(codes),
+        accs.last() == 0 || (exists|i: int| 0 <= i < codes.len() && codes[i] == accs.last()),
+    decreases codes.len()
+{
+    if codes.len() > 0 {
+        let n = codes.len() as int;
+        let pc = codes.drop_last();
+        let pa = accs.drop_last();
+        assert forall|i: int| 0 <= i < pc.len() implies validate_step_ok(pa[i], pc[i], #[trigger] pa[i + 1]) by {
+            assert(pa[i] == accs[i] && pc[i] == codes[i] && pa[i + 1] == accs[i + 1]);
+        }
+        lemma_step_fold(pc, pa);
+        assert(pa.last() == accs[n - 1]);
+        assert(validate_step_ok(accs[n - 1], codes[n - 1], accs[n]));
+        if all_zero(codes) {
+            assert forall|i: int| 0 <= i < pc.len() implies pc[i] == 0 by { assert(pc[i] == codes[i]); }
+        }
+        if all_zero(pc) && codes[n - 1] == 0 {
+            assert forall|i: int| 0 <= i < codes.len() implies codes[i] == 0 by { if i < n - 1 { assert(pc[i] == codes[i]); } }
+        }
+        if accs.last() != 0 {
+            if accs.last() == codes[n - 1] { } else {
+                assert(accs.last() == accs[n - 1]);
+                let i = choose|i: int| 0 <= i < pc.len() && pc[i] == pa.last();
+                assert(codes[i] == pc[i]);
+            }
+        }
+    }
+}
 // ---- fn guard/src/commands/test.rs::get_exit_code
 fn get_exit_code(exit_code: i32, test_code: i32) -> (res: i32)
     requires
@@ -132,6 +181,30 @@ impl JunitReporter {
 impl JunitReporter {
     fn update_exit_code__canary(&mut self, code: i32)
 { assert(false); vstd::pervasive::unreached() }
+}
+// ---- fn guard/src/commands/validate.rs::execute fragment #0 (R16)
+fn verif_fragment_execute_0(exit_code_in: i32, status: i32) -> (res: i32)
+    ensures
+        validate_step_ok(exit_code_in, status, res),
+{
+    let mut exit_code = exit_code_in;   // the accumulator of Validate::execute (`let mut exit_code = SUCCESS_STATUS_CODE;`)
+    if status == FAILURE_STATUS_CODE
+                                    || exit_code != FAILURE_STATUS_CODE
+                                {
+                                    exit_code = status
+                                };
+    exit_code
+}
+// ---- fn guard/src/commands/validate.rs::execute fragment #1 (R16)
+fn verif_fragment_execute_1(exit_code_in: i32, status: i32) -> (res: i32)
+    ensures
+        validate_step_ok(exit_code_in, status, res),
+{
+    let mut exit_code = exit_code_in;   // the accumulator of Validate::execute (`let mut exit_code = SUCCESS_STATUS_CODE;`)
+    if status == FAILURE_STATUS_CODE || exit_code != FAILURE_STATUS_CODE {
+                            exit_code = status;
+                        };
+    exit_code
 }
 } // verus!
 fn main() {}
